@@ -89,6 +89,9 @@ ShapeDef ==
             bl |-> << [g |-> ("cont" :> 1), sq |-> <<2, 1>>] >>],
     S3 |-> [pg |-> One(GN),
             bl |-> << [g |-> One(GN), sq |-> <<1>>], [g |-> NoGroups, sq |-> <<1, 2>>] >>],
+    \* more than a hundred stored objects (a transactional batch of the service holds at most 100 operations)
+    S5 |-> [pg |-> [x \in GN |-> 3],
+            bl |-> [b \in 1..3 |-> [g |-> [x \in GN |-> 3], sq |-> <<8, 8, 8>>]]],
     S4 |-> [pg |-> ("post" :> 2),
             bl |-> << [g |-> ("bypass" :> 1) @@ ("post" :> 1), sq |-> <<1>>], [g |-> ("pre" :> 2), sq |-> <<2>>] >>] ]
 
@@ -163,10 +166,14 @@ DoCreateFail(i, sn, g, bad) ==
   /\ clock' = clock + 1 /\ store' = store
   /\ Emit([op |-> "CreateFail", id |-> i, sh |-> sn, def |-> ShapeDef[sn], g |-> g, v |-> 0, st |-> PStatus(0),
            t |-> clock + 1, bad |-> bad, r |-> "err"])
-DoCreateIOFail(i, sn, g) ==
+(* w: which storage operation of the Create is refused.  The first one: Create fails.  A later one (cosmosdb     *)
+(* writes the plan's items and its search record in two operations): the implementation may have no such operation,    *)
+(* so the reply is not fixed ("any") - but Create stays all-or-nothing: with an error nothing may be left behind,     *)
+(* without one the complete plan must be there (the replay then deletes it again, to stay in step with the model).    *)
+DoCreateIOFail(i, sn, g, w) ==
   /\ clock' = clock + 1 /\ store' = store
   /\ Emit([op |-> "CreateIOFail", id |-> i, sh |-> sn, def |-> ShapeDef[sn], g |-> g, v |-> 0, st |-> PStatus(0),
-           t |-> clock + 1, r |-> "err"])
+           t |-> clock + 1, w |-> w, r |-> IF w = 1 THEN "err" ELSE "any"])
 
 (* Update<Kind>(object o of plan i): the object's last-written version becomes v, nothing else changes.
    On an id that does not exist the reply is not specified and nothing may appear. *)
@@ -190,6 +197,11 @@ DoExists(i) == /\ UNCHANGED <<store, clock>>
                /\ Emit([op |-> "Exists", id |-> i, x |-> IsLive(store, i), r |-> "ok"])
 DoSearch(f) == /\ UNCHANGED <<store, clock>>
                /\ Emit([op |-> "Search", f |-> f, res |-> SearchRes(store, f), r |-> "ok"])
+(* a Search that names no id, no group and no status.  The statement does not say what it answers (the code    *)
+(* refuses it); demanded is only what holds of every query: it leaves the store alone, its stream - if there is *)
+(* one - is closed, and the vault goes on answering afterwards ("... and terminate").                           *)
+DoSearchNone == /\ UNCHANGED <<store, clock>>
+                /\ Emit([op |-> "SearchNone", r |-> "any"])
 DoList(n) == /\ UNCHANGED <<store, clock>>
              /\ Emit([op |-> "List", n |-> n, res |-> ListRes(store, n), r |-> "ok"])
 (* every query at once on the current store: Exists of every id, every filter, every limit *)
@@ -208,13 +220,14 @@ Next ==
   /\ LastOp # "Queries"                       \* the bulk step ends a history
   /\ \/ "Create" \in Ops /\ \E i \in P(CIds), sn \in P(ShapeNames), g \in P(Groups), v0 \in P(InitVers) : DoCreate(i, sn, g, v0)
      \/ "CreateFail" \in Ops /\ \E i \in P(CIds), sn \in P(ShapeNames), g \in P(Groups) : \E bad \in P(ActionsOf(sn)) : DoCreateFail(i, sn, g, bad)
-     \/ "CreateIOFail" \in Ops /\ \E i \in P(CIds), sn \in P(ShapeNames), g \in P(Groups) : DoCreateIOFail(i, sn, g)
+     \/ "CreateIOFail" \in Ops /\ \E i \in P(CIds), sn \in P(ShapeNames), g \in P(Groups), w \in P({1, 2}) : DoCreateIOFail(i, sn, g, w)
      \/ "Update" \in Ops /\ \E i \in P(Ids) : \E o \in P(UpdObjs(i)) : \E v \in P(NextVers(i, o)) : DoUpdate(i, o, v)
      \/ "UpdatePlan" \in Ops /\ \E i \in P(Ids) : \E v \in P(NextVers(i, "plan")) : DoUpdate(i, "plan", v)
      \/ "Read" \in Ops /\ \E i \in P(Ids) : DoRead(i)
      \/ "Delete" \in Ops /\ \E i \in P(Ids) : DoDelete(i)
      \/ "Exists" \in Ops /\ \E i \in P(Ids) : DoExists(i)
      \/ "Search" \in Ops /\ \E f \in P(StepFilters) : DoSearch(f)
+     \/ "SearchNone" \in Ops /\ DoSearchNone
      \/ "List" \in Ops /\ \E n \in P(Limits(store)) : DoList(n)
      \/ "Bulk" \in Ops /\ DoBulk
 
@@ -244,7 +257,7 @@ ListSound == LET all == ListRes(store, 0) IN
 Lst == hist'[Len(hist')]
 Stepped == hist' # hist
 \* a failed Create, a duplicate Create and every query leave the store alone
-FailNoTrace == [][(Stepped /\ Lst.op \in {"CreateDup", "CreateFail", "CreateIOFail", "Read", "Exists", "Search", "List", "Queries"})
+FailNoTrace == [][(Stepped /\ Lst.op \in {"CreateDup", "CreateFail", "CreateIOFail", "Read", "Exists", "Search", "SearchNone", "List", "Queries"})
                    => store' = store]_vars
 \* Delete removes exactly one plan
 DeleteExact == [][(Stepped /\ Lst.op = "Delete")
